@@ -64,6 +64,9 @@ def gen_cases(tier, seed):
 
 def run_case(case, ctx):
     L, mon = ctx["L"], ctx["mon"]
+    miss = ctx["mon"].need("_match_regex", "_preprocess_string")
+    if miss:
+        return miss
     ts = C.parse_ts(case["ts"])
     expr = case["e"]
     emb = " ".join(case["pre"] + [expr] + case["post"])
